@@ -7,6 +7,7 @@ CONSTANTS
   EmitEvery = 1
   Decoys = {1}
   HolderKeys = {""}
+  PairStrats = FALSE
   ShapeIdx = {1, 2, 3, 5, 6, 7}
   PlanSet <- Plans
   PresChoices <- Pres
